@@ -31,6 +31,10 @@ var verifC17Src = []string{
 	"select id, first_value(v) over (partition by p order by k rows between 1 preceding and 1 following) from t", // 17
 	"select id, lag(v) ignore nulls over (partition by p order by k) from t",                            // 18
 	"select id, min(v) over (partition by p order by k rows between current row and unbounded following) from t", // 19
+	"select id, count(v) over (partition by p order by k rows between 2 preceding and 1 preceding) from t",       // 20: frame before the row
+	"select id, last_value(v) over (partition by p order by k rows between 1 following and 2 following) from t",  // 21: frame after the row
+	"select id, row_number() over (partition by p order by k), rank() over (partition by p order by k desc) from t", // 22: two functions, different orders
+	"select id, max(v) over (partition by p order by k rows between 1 preceding and 1 preceding) from t",           // 23
 }
 
 var verifC17Queries []parser.SelectQuery
@@ -240,6 +244,34 @@ func VerifC17Analytic() {
 				}
 			}
 			verifAssert("LAG IGNORE NULLS", isCell(f))
+		case 20:
+			c := 0
+			for a := pos - 2; a <= pos-1; a++ {
+				if a >= 0 && a < m && !vnull[mem[a]] {
+					c++
+				}
+			}
+			verifAssert("COUNT over a frame that lies before the row", isInt(int64(c)))
+		case 21:
+			f := -1
+			for a := pos + 1; a <= pos+2; a++ {
+				if a >= 0 && a < m {
+					f = a
+				}
+			}
+			verifAssert("LAST_VALUE over a frame that lies after the row", isCell(f))
+		case 22:
+			verifAssert("ROW_NUMBER next to another analytic function", isInt(int64(pos+1)))
+			r2, ok := view.RecordSet[r][2][0].(*value.Integer)
+			greater := 0
+			for _, x := range mem {
+				if key[x] > key[id] {
+					greater++
+				}
+			}
+			verifAssert("RANK with the opposite order in the same query", ok && r2.Raw() == int64(greater+1))
+		case 23:
+			verifAssert("MAX over the single preceding row", isCell(pos-1))
 		case 19:
 			best := -1
 			for a := pos; a < m; a++ {
